@@ -12,6 +12,9 @@ fns, opaque external types with assume_specification) and whose executable funct
     //@loop_opt <k> <clause text>     the same, but if the function no longer has a k-th loop the clauses are dropped
     //@subst <old>=><new>             literal replacement in signature+body (each counted, each listed in evidence)
     //@subst_re <regex>=><new>        same with a (DOTALL) regular expression, for multi-line `assert!(.., "fmt", ..)`
+    //@subst_opt_re <regex>=><new>    a PURE DIALECT TRANSLATION of a statement whose removal is a plausible breaking change: applied
+                                      where it matches; when nothing matches the function goes to the verifier without it (the
+                                      postcondition decides) instead of being reported as a lost anchor
     //@subst_alt <group> <regex>=><new>  alternatives for ONE site that may legitimately have more than one shape (e.g. before
                                       and after a repair): the first alternative of the group whose regex matches is applied; if
                                       none matches the anchor is lost (exit 2).  Lets a shape that VIOLATES the contract still be
@@ -20,11 +23,13 @@ fns, opaque external types with assume_specification) and whose executable funct
     //@after <anchor>=><text>         ... or right after it
     //@at_end <text>                  ghost text (proof blocks only) inserted before the closing brace of the body (bodies of
                                       unit type only); may be given several times, the texts are concatenated
+    //@before_tail <text>             ghost text inserted in front of the tail expression of the body (a single identifier)
     //@end
 
     //@const <src path> <NAME>        emits `pub const NAME: <ty> = <literal>;` with the initialiser of /repo
                                       evaluated by the extractor (R3: Verus cannot evaluate shift expressions)
-    //@struct <src path> <Name>       emits the struct/enum definition with its attributes dropped (R5)
+    //@struct <src path> <Name> [pub] emits the struct/enum definition with its attributes dropped (R5); `pub`: the item and its
+                                      fields are made public (privacy is meaningless in the single-file unit)
 
 Body rules R1 (tracing/proto_err statements dropped) and R2 (debug_assert -> assert) come from extract.py.
 """
@@ -115,7 +120,8 @@ def generate(unit, repo):
             i += 1
             continue
         if s.startswith("//@struct "):
-            _, src, name = s.split()
+            parts = s.split()
+            src, name = parts[1], parts[2]
             text = open(os.path.join(repo, src)).read()
             r = extract.find_struct(text, name)
             if not r:
@@ -123,6 +129,13 @@ def generate(unit, repo):
             body = text[r[0]:r[1]]
             body = re.sub(r"(?m)^\s*///.*\n", "", body)
             body = re.sub(r"(?m)^\s*//.*\n", "", body)
+            if len(parts) > 3 and parts[3] == "pub":
+                # R5: field privacy is meaningless in the single-file unit (spec functions must be able to name the fields)
+                body = re.sub(r"(?m)^(\s+)(?!pub\b)([a-z_][a-z0-9_]*\s*:)", r"\1pub \2", body)
+                body = re.sub(r"^(struct|enum)\b", r"pub \1", body)
+                mt = re.match(r"(pub struct \w+)\(([^)]*)\);\s*$", body)
+                if mt:      # tuple struct
+                    body = "%s(%s);" % (mt.group(1), ", ".join(f if f.strip().startswith("pub") else "pub " + f.strip() for f in mt.group(2).split(",") if f.strip()))
             info["rules"]["R5_struct"] = info["rules"].get("R5_struct", 0) + 1
             out.append(body)
             i += 1
@@ -130,6 +143,7 @@ def generate(unit, repo):
         if s.startswith("//@extract "):
             _, src, spec = s.split()
             ret, specs, loops, substs, befores, attrs, at_end = None, [], {}, [], [], [], []
+            before_tail = []
             opt_loops = set()
             none_ty = None
             i += 1
@@ -152,6 +166,9 @@ def generate(unit, repo):
                     _, k, rest = d.split(None, 2)
                     loops.setdefault(int(k), []).append(rest)
                     opt_loops.add(int(k))
+                elif d.startswith("//@subst_opt_re "):
+                    a, b = split_arrow(d[len("//@subst_opt_re "):])
+                    substs.append(("ore:" + a, b))
                 elif d.startswith("//@subst_re "):
                     a, b = split_arrow(d[len("//@subst_re "):])
                     substs.append(("re:" + a, b))
@@ -170,6 +187,8 @@ def generate(unit, repo):
                     befores.append((a, b, True))
                 elif d.startswith("//@at_end "):
                     at_end.append(d[len("//@at_end "):])
+                elif d.startswith("//@before_tail "):
+                    before_tail.append(d[len("//@before_tail "):])
                 elif d.startswith("//@"):
                     raise ValueError("unknown directive: " + d)
                 i += 1
@@ -205,6 +224,11 @@ def generate(unit, repo):
                     alt_seen[g] = True
                     info["substs"].append({"fn": spec, "alt_group": g, "old_regex": rxs, "new": b, "count": len(found)})
                     continue
+                if a.startswith("ore:"):
+                    a = a[1:]
+                    if not (re.compile(a[3:], re.S).search(body) or re.compile(a[3:], re.S).search(sig)):
+                        info["substs"].append({"fn": spec, "old_regex": a[3:], "new": b, "count": 0, "optional": True})
+                        continue
                 if a.startswith("re:"):
                     rx = re.compile(a[3:], re.S)
                     found = rx.findall(body) + rx.findall(sig)
@@ -246,6 +270,12 @@ def generate(unit, repo):
             if at_end:
                 k = body.rstrip().rfind("}")
                 body = body[:k] + " " + " ".join(at_end) + "\n" + body[k:]
+            if before_tail:
+                # the body ends `<newline> <identifier> <newline> }`: ghost text goes in front of that tail expression
+                m = re.search(r"\n[ \t]*[A-Za-z_][A-Za-z0-9_]*[ \t]*\n[ \t]*\}\s*$", body)
+                if not m:
+                    raise ValueError("lost anchor: before_tail needs a body ending in a single identifier in %s" % spec)
+                body = body[:m.start()] + "\n " + " ".join(before_tail) + body[m.start():]
             if loops:
                 pos = extract.loop_positions(body)
                 for k in sorted(loops, reverse=True):
@@ -260,7 +290,11 @@ def generate(unit, repo):
                 m = re.search(r"->\s*(.+)$", sig, flags=re.S)
                 if not m:
                     raise ValueError("no return type to name in %s" % spec)
-                sig = sig[:m.start()] + "-> (%s: %s)" % (ret, m.group(1).strip())
+                rty, where = m.group(1).strip(), ""
+                mw = re.search(r"\n\s*where\b", rty)
+                if mw:      # `-> T where F: ..` : the where clause stays behind the named return value
+                    rty, where = rty[:mw.start()].strip(), "\n" + rty[mw.start():].strip()
+                sig = sig[:m.start()] + "-> (%s: %s)%s" % (ret, rty, where)
             for k, v in counts.items():
                 info["rules"][k] = info["rules"].get(k, 0) + v
             first = len(out) + 1
